@@ -455,14 +455,19 @@ func (x *Exec) loop(s ast.Stmt, st *State, cx *Ctx, k func(*State)) {
 			d, v, vs, vt := x.mapParts(iter, rangeVal)
 			S := hid["$visited"].T
 			key := x.freshConst("rk", "Int")
+			x.nilMapFacts(iter, rangeVal, d, v, vs, key)
+			x.nilMapFacts(exit, rangeVal, d, v, vs, "")
 			kt := types.Unalias(x.info().TypeOf(rng.X)).Underlying().(*types.Map).Key()
 			iter.assume(and(app("select", d, key), not(app("select", S, key)), inRange(key, kt)))
 			de, _, _, _ := x.mapParts(exit, rangeVal)
 			exit.assume(fmt.Sprintf("(forall ((k Int)) (! (=> (select %s k) (select %s k)) :pattern ((select %s k))))", de, S, de))
 			if vs == "Int" {
-				ve := v
+				_, ve, _, _ := x.mapParts(exit, rangeVal)
 				iter.assume(app("<=", app("msumR", d, v, S), app("msum", d, v)))
 				exit.assume(app("=", app("msumR", de, ve, S), app("msum", de, ve)))
+				// L_zero and its converse for the ranged map
+				exit.assume(fmt.Sprintf("(=> (forall ((k Int)) (=> (select %s k) (= (nn (select %s k)) 0))) (= (msum %s %s) 0))", de, ve, de, ve))
+				exit.assume(fmt.Sprintf("(=> (= (msum %s %s) 0) (forall ((k Int)) (! (=> (select %s k) (<= (select %s k) 0)) :pattern ((select %s k)))))", de, ve, de, ve, ve))
 			}
 			kv := Val{T: key, S: "Int", G: kt}
 			if rng.Key != nil {
@@ -476,6 +481,7 @@ func (x *Exec) loop(s ast.Stmt, st *State, cx *Ctx, k func(*State)) {
 			nS := app("store", S, key, "true")
 			if vs == "Int" {
 				iter.assume(app("=", app("msumR", d, v, nS), app("+", app("msumR", d, v, S), app("nn", val.T))))
+				iter.assume(app("<=", app("msumR", d, v, nS), app("msum", d, v)))
 			}
 			iter.ghostTmp = map[string]Val{"$key": kv}
 			hidNext := nS
@@ -755,6 +761,9 @@ func rootIdent(e ast.Expr) *ast.Ident {
 }
 
 func (x *Exec) eventGhosts(ev *EventSpec, ms *modSet) {
+	if ev.Kind == "send" || ev.Kind == "recv" {
+		ms.ghosts["gClock"] = true
+	}
 	for _, c := range ev.Clauses {
 		if c.Kind == "effect" {
 			ms.ghosts[c.Target] = true
@@ -830,7 +839,11 @@ func (x *Exec) callMods(e *ast.CallExpr, st *State, ms *modSet, invariantExpr fu
 		}
 	} else if ft := info.TypeOf(e.Fun); ft != nil {
 		if n, ok := types.Unalias(ft).(*types.Named); ok && n.Obj().Pkg() != nil {
-			if fts := x.sp.FuncTypes[n.Obj().Pkg().Path()+"."+n.Obj().Name()]; fts != nil {
+			fts := x.sp.FuncTypes[n.Obj().Pkg().Path()+"."+n.Obj().Name()]
+			if fts == nil {
+				fts = x.sp.FuncTypes[x.fn.pkgPath()+"."+n.Obj().Name()]
+			}
+			if fts != nil {
 				clauses, names, argExprs = fts.Clauses, fts.Params, e.Args
 			}
 		}
